@@ -52,5 +52,20 @@ def record(r, i):
     return {"ops": ["sv.iter 1", "sv.dump"] * r.randint(3, 40) + ["sv.solve", "sv.dump", "sv.result"], "lim": r.choice([60, 200])}
 
 
+def resume(r, i):
+    """Solve, change itersLimit / eps of the parameters object in place, Solve again (several times)"""
+    from common import f2h
+    lim = r.choice([1, 2, 3, 5, 8, 17, 40])
+    eps = r.choice([0.5, 0.3, 0.1, 0.05, 0.02])
+    ops = [r.choice(["sv.solve", "sv.iter 2", "sv.iter 1"]), "sv.result"]
+    for _ in range(r.randint(1, 3)):
+        lim = max(1, lim + r.choice([0, 1, 3, 10, 40, -2]))
+        eps = eps * r.choice([1.0, 0.5, 0.1, 2.0])
+        ops += [f"sv.setparams {lim} {f2h(eps)}", "sv.solve", "sv.result"]
+        if r.random() < 0.3:
+            ops.append("sv.dump")
+    return {"ops": ops + ["sv.dump"], "lim": r.choice([1, 2, 3, 5, 8, 17]), "eps": r.choice([0.5, 0.3, 0.1, 0.05])}
+
+
 VARIANTS = {"solver": default, "solver_fail": fail, "solver_refine": refine, "solver_density": density,
-            "solver_batch": batch, "solver_small": small, "solver_record": record}
+            "solver_batch": batch, "solver_small": small, "solver_record": record, "solver_resume": resume}
